@@ -130,7 +130,8 @@ def run_case(ctx, g, rng):
     for i in range(rng.randint(1, 3)):
         u = ups.pop()
         us = tuple(ups.pop() for _ in range(rng.choice([0, 1, 1, 2])) if len(ups) > 2)
-        recs.append(spec.Rec(f"p{i}", u, (f"P{i}",) if rng.random() < 0.4 else (), us, None))
+        # (a record may carry a pattern - documentation of what identifiers look like; no answer depends on it, seed C18-R)
+        recs.append(spec.Rec(f"p{i}", u, (f"P{i}",) if rng.random() < 0.4 else (), us, rng.choice([None, None, "^\\d{7}$", "^\\d+$", "^x$"])))
     # "for every converter": the converter's CURIE delimiter is its own business - the service speaks URIs (seed C18-Q: a
     # reference written with ':' and re-parsed with the converter's delimiter); with another delimiter a prefix may
     # contain a colon
